@@ -49,6 +49,7 @@ type pendingViolation struct {
 	what     string
 	extra    map[string]any
 	n        int64
+	class    string
 }
 
 // less orders candidates: fewer changed headers, earlier fixture, shorter description.
@@ -88,6 +89,7 @@ func b224(b []byte) [28]byte {
 type mismatch struct {
 	comp string // component kind
 	what string
+	feat string // for failures of an unchanged block: the structural feature of the component's container ("" = none)
 }
 
 // rep is a reported range in int form.
@@ -102,7 +104,7 @@ func shift(r Rng, d int) Rng { return Rng{r.S + d, r.E + d} }
 func compare(block []byte, lay *Layout, off *common.BlockTransactionOffsets) (mm []mismatch, ranges int, obs map[string]int) {
 	obs = map[string]int{}
 	add := func(comp, format string, a ...any) {
-		mm = append(mm, mismatch{comp, fmt.Sprintf(format, a...)})
+		mm = append(mm, mismatch{comp: comp, what: fmt.Sprintf(format, a...)})
 	}
 	oob := func(r Rng) string {
 		if r.S < 0 || r.E > len(block) || r.S > r.E {
@@ -192,6 +194,9 @@ func compare(block []byte, lay *Layout, off *common.BlockTransactionOffsets) (mm
 			}
 			if !found {
 				add("datum", "tx %d datum %x reported %v%s, no plutus-data item of the witness set is there (located %v)", i, h[:8], r, oob(r), exp.Datums)
+				if exp.DatumsTagged {
+					mm[len(mm)-1].feat = "set-tag"
+				}
 			} else {
 				oob(r)
 			}
@@ -261,6 +266,9 @@ func compare(block []byte, lay *Layout, off *common.BlockTransactionOffsets) (mm
 					l = append(l, s.R)
 				}
 				add("script", "tx %d script %x reported %v%s, no script element of the witness set is there (located %v)", i, h[:8], r, oob(r), l)
+				if exp.ScriptsTagged {
+					mm[len(mm)-1].feat = "set-tag"
+				}
 			} else {
 				oob(r)
 			}
@@ -398,7 +406,7 @@ func handle(v *Variant) {
 		r := res[i]
 		if r.panicked != nil {
 			// an extractor that panics on a block the decoder accepts reports nothing valid
-			report(e.name, "panic", v, fmt.Sprintf("extractor panicked: %v", r.panicked), nil)
+			report(e.name, "panic", v, fmt.Sprintf("extractor panicked: %v", r.panicked), "", nil)
 			bad = true
 			continue
 		}
@@ -419,7 +427,7 @@ func handle(v *Variant) {
 			}
 			seen[m.comp] = true
 			bad = true
-			report(e.name, m.comp, v, m.what, map[string]any{"mismatches": len(mm)})
+			report(e.name, m.comp, v, m.what, m.feat, map[string]any{"mismatches": len(mm)})
 		}
 	}
 	switch {
@@ -448,10 +456,14 @@ func fnShort(fn string) string {
 // report turns a mismatch into a violation. Key = <extractor>.<component>|<family>|<class of
 // the changed header(s)>. A d=2 failure that a d=1 failure of one of its two headers
 // already explains is not reported again.
-func report(fn, comp string, v *Variant, what string, extra map[string]any) {
+func report(fn, comp string, v *Variant, what, feat string, extra map[string]any) {
 	fam := familyOf(v.Fx.Type)
-	k := fn + "|" + comp + "|" + fam + "|" + v.ClassKey()
-	cand := &pendingViolation{fn: fn, comp: comp, v: v, what: what, extra: extra, n: 1}
+	class := v.ClassKey()
+	if len(v.Sites) == 0 && feat != "" {
+		class += "+" + feat
+	}
+	k := fn + "|" + comp + "|" + fam + "|" + class
+	cand := &pendingViolation{fn: fn, comp: comp, v: v, what: what, extra: extra, n: 1, class: class}
 	mu.Lock()
 	if len(v.Sites) == 0 {
 		origFail[fn+"|"+comp+"|"+v.Fx.Name] = true
@@ -517,13 +529,13 @@ func resolvePending(all bool) {
 			p.extra = map[string]any{}
 		}
 		p.extra["failing_variants_in_class"] = p.n
-		emit(p.fn, p.comp, fam, p.v.ClassKey(), p.v, p.what, p.extra)
+		emit(p.fn, p.comp, fam, p.class, p.v, p.what, p.extra)
 	}
 }
 
 func main() {
 	c = vlib.New("C07", "exploration")
-	if g := os.Getenv("VERIF_GOGC"); g != "" { n, _ := strconv.Atoi(g); debug.SetGCPercent(n) } else { debug.SetGCPercent(400) }
+	if g := os.Getenv("VERIF_GOGC"); g != "" { n, _ := strconv.Atoi(g); debug.SetGCPercent(n) } else { debug.SetGCPercent(200) }
 	if pf := os.Getenv("VERIF_PPROF"); pf != "" {
 		f, _ := os.Create(pf)
 		pprof.StartCPUProfile(f)
@@ -540,9 +552,15 @@ func main() {
 	if c.Thorough() {
 		spineTx, repeatMax = 2, 2
 	}
+	if !c.Thorough() {
+		d1Shallow = map[string]bool{"allegra": true, "mary": true, "babbage": true}
+	}
 	var plans []*fxPlan
 	for i := range fixtures {
 		fxOrder[fixtures[i].Name] = i
+		if only := os.Getenv("VERIF_ONLY"); only != "" && only != fixtures[i].Name { // debugging aid
+			continue
+		}
 		if strings.HasPrefix(fixtures[i].Name, "synth-") {
 			if ok, _ := decoderAccepts(fixtures[i].Type, fixtures[i].Cbor, skipCfg); !ok {
 				_, err := ledger.NewBlockFromCbor(fixtures[i].Type, fixtures[i].Cbor, skipCfg)
